@@ -160,6 +160,10 @@ def members(tier):
     for f_ in (0.3, 0.1 + 0.2, 1 / 3, 0.333333333333333, 0.3333333333333334, 1e16, 1e16 + 2, 5e-324, 0.0):
         line.append((f'v=float {f_!r}', {'v': f_}))
         line.append((f'v=[{{k: float {f_!r}}}]', {'v': [{'k': [f_]}]}))
+    # strings that are canonically / compatibility equivalent in Unicode, differ in case or in surrounding blanks: different strings, different values
+    for t_ in ('caf\u00e9', 'cafe\u0301', '\u212b', '\u00c5', 'A\u030a', '\uac00', '\u1100\u1161', '\ufb01', 'fi', 'K', 'k', 'k ', ' k', 'k\u00a0', '\u017f', 's'):
+        line.append((f'v=text {t_!a}', {'v': t_}))
+        line.append((f'v=[{{text {t_!a}: [..]}}]', {'v': [{'k': [t_], t_: 1}]}))
     # a value of another type that merely PRINTS like the not-persisted default ('2'): it is not the default
     for dq in ('2', 2, 2.0, True, 'True', None, 'None'):
         line.append((f'v=0,dq={dq!r}', {'v': 0, 'dq': dq}))
@@ -252,6 +256,45 @@ def inplace_sweep():
     return out[:3]
 
 
+def mutated_default_scenario():
+    """a parameter with a MUTABLE default that is not persisted when default; run() changes the value it was given in place (sorts it). A later
+    config that spells out the changed value is a different computation than the one with the declared default - own location, own result -
+    and a later config that omits the parameter still computes with the declared default"""
+    from pathlib import Path
+
+    from taskchain import Config, Parameter, Task
+
+    class Ranking(Task):
+        class Meta:
+            parameters = [Parameter('scores', default=[3, 1, 2], dont_persist_default_value=True), Parameter('opts', default={'k': [2, 1]}, dont_persist_default_value=True)]
+
+        def run(self, scores, opts) -> dict:
+            given = {'first': scores[0], 'k': list(opts['k'])}
+            scores.sort()
+            opts['k'].sort()
+            return given
+
+    out = []
+    root = scratch.fresh('c03m')
+    try:
+        def chain(name, **values):
+            return Config(Path(root) / 'data', name=name, data=dict({'tasks': [Ranking]}, **values)).chain()
+        c1 = chain('declared')
+        k1, v1 = c1['ranking'].name_for_persistence, c1['ranking'].value
+        c2 = chain('spelled', scores=[1, 2, 3], opts={'k': [1, 2]})
+        k2, v2 = c2['ranking'].name_for_persistence, c2['ranking'].value
+        c3 = chain('declared-again')
+        k3, seen3 = c3['ranking'].name_for_persistence, (list(c3['ranking'].params.scores), dict(c3['ranking'].params.opts))
+        if k1 == k2 or v2 != {'first': 1, 'k': [1, 2]}:
+            out.append(Violation('mutated-default: different computations have the same key', f'default scores [3, 1, 2] (sorted in place by run) and explicit scores [1, 2, 3]: keys {k1} / {k2}, '
+                                 f'values {v1} / {v2}', {'kind': 'mutated-default'}))
+        if k3 != k1 or seen3 != ([3, 1, 2], {'k': [2, 1]}):
+            out.append(Violation('mutated-default: a later task of the class does not get the declared default', f'key {k3} vs {k1}, parameter values {seen3}', {'kind': 'mutated-default'}))
+    finally:
+        scratch.drop(root)
+    return out
+
+
 def run(tier, seed):
     import tcv
 
@@ -302,6 +345,7 @@ def run(tier, seed):
                                             {'bucket': bucket, 'members': [l for l, q, t in items][:4]}))
     res.coverage['colliding_buckets'] = ncoll
     res.violations.extend(inplace_sweep())
+    res.violations.extend(mutated_default_scenario())
     res.coverage['evaluations'] += 12
     res.coverage['traces_validated_against_impl'] = len(rows)
     res.coverage['exhaustive'] = True
@@ -315,6 +359,10 @@ def run(tier, seed):
 
 
 def replay(case):
+    if case.get('kind') == 'mutated-default':
+        import tcv
+        tcv.quiet_library()
+        return mutated_default_scenario()
     if case.get('kind') == 'sweep':
         import tcv
         tcv.quiet_library()
